@@ -99,10 +99,24 @@ def rle_spans(tokens):
 
 
 # ---------------------------------------------------------------------- gamma
+_MEM = 0   # 1: the same values handed over in another memory layout (set per gamma call from the style)
+
+
+def _mem(a):
+    """the same array content in Fortran order (rank >= 2) or as a strided view (rank 1)"""
+    if _MEM == 0 or a.size == 0:
+        return a
+    if a.ndim >= 2:
+        return np.asfortranarray(a)
+    big = np.full(a.size * 2, 99, dtype=a.dtype)
+    big[::2] = a
+    return big[::2]
+
+
 def _arr(vals, ty, ids, shape=None):
     dt = "<f4" if ty == "f32" else "<f8"
     a = np.array([vals.flt(ty, i) for i in ids], dtype=dt)
-    return a.reshape(shape) if shape else a
+    return _mem(a.reshape(shape) if shape else a)
 
 
 def _frames(vals, frames, per):
@@ -126,12 +140,23 @@ def _vp(vals, d, style):
 
 
 def gamma(kind, fmt, b, vals, style=0):
-    """style varies equivalent ways of handing the same content to the library"""
+    """style varies equivalent ways of handing the same content to the library (0..5: ways of
+    attaching items, list / tuple / array arguments; 6..11: the same with the arrays in Fortran
+    order or as strided views, and event values as float64 arrays)"""
+    global _MEM
+    _MEM = (style // 6) % 2
+    try:
+        return _gamma(kind, fmt, b, vals, style % 6)
+    finally:
+        _MEM = 0
+
+
+def _gamma(kind, fmt, b, vals, style=0):
     if kind == "Data3D":
         obj = Data3D(vals.int("i32", b["frequency"]), b["nFrames"], _arr(vals, "f32", b["volume"]),
                      _arr(vals, "f32", b["rotationMatrix"], (3, 3)), _arr(vals, "f32", b["translationVector"]),
                      vals.flt("f32", b["startTime"]), Flags(b["flag"]), Data3dBlockFormat(fmt))
-        trs = [MarkerTrack(vals.text(t["label"], 256), _frames(vals, t["frames"], 3)) for t in b["tracks"]]
+        trs = [MarkerTrack(vals.text(t["label"], 256), _mem(_frames(vals, t["frames"], 3))) for t in b["tracks"]]
         if style % 2:
             obj.tracks = trs
         else:
@@ -150,7 +175,7 @@ def gamma(kind, fmt, b, vals, style=0):
     if kind == "EMG":
         obj = EMG(vals.int("i32", b["frequency"]), b["nSamples"], vals.flt("f32", b["startTime"]), EMGBlockFormat(fmt))
         for t, ch in zip(b["signals"], b["chans"]):
-            obj.addSignal(EMGTrack(vals.text(t["label"], 256), _frames(vals, t["frames"], 1)[:, 0]),
+            obj.addSignal(EMGTrack(vals.text(t["label"], 256), _mem(_frames(vals, t["frames"], 1)[:, 0].copy())),
                           channel=vals.int("i16", ch))
         return obj
     if kind == "ForceTorque3D":
@@ -160,7 +185,8 @@ def gamma(kind, fmt, b, vals, style=0):
         trs = []
         for t in b["tracks"]:
             a = _frames(vals, t["frames"], 9)
-            trs.append(ForceTorqueTrack(vals.text(t["label"], 256), a[:, 0:3].copy(), a[:, 3:6].copy(), a[:, 6:9].copy()))
+            trs.append(ForceTorqueTrack(vals.text(t["label"], 256), _mem(a[:, 0:3].copy()), _mem(a[:, 3:6].copy()),
+                                        _mem(a[:, 6:9].copy())))
         if style % 2:
             obj.tracks = trs
         else:
@@ -172,7 +198,7 @@ def gamma(kind, fmt, b, vals, style=0):
                                       ForcePlatformBlockFormat(fmt))
         for p, ch in zip(b["platforms"], b["chans"]):
             a = _frames(vals, p["frames"], 6)
-            obj.add_platform(ForcePlatformData(a[:, 0:2].copy(), a[:, 2:5].copy(), a[:, 5].copy()),
+            obj.add_platform(ForcePlatformData(_mem(a[:, 0:2].copy()), _mem(a[:, 2:5].copy()), _mem(a[:, 5].copy())),
                              channel=vals.int("u16", ch))
         return obj
     if kind == "ForcePlatformsCalibration":
@@ -222,7 +248,9 @@ def gamma(kind, fmt, b, vals, style=0):
         obj = TemporalEventsData(TemporalEventsDataFormat(fmt), vals.flt("f32", b["startTime"]))
         for e in b["events"]:
             v = [vals.flt("f32", x) for x in e["values"]]
-            if style % 2:
+            if _MEM:
+                v = _mem(np.array(v, dtype="<f8"))      # exact: the values are float32-representable
+            elif style % 2:
                 v = np.array(v, dtype="<f4")
             obj.events.append(Event(vals.text(e["label"], 256), v, EventsDataType(e["type"])))
         return obj
